@@ -351,6 +351,17 @@ func genDevice(r *RNG, b *asaDev) (*asaDev, []string) {
 		}
 	}
 	// remove groups that became unreferenced and untagged by renames? keep: they are unmanaged then.
+	if r.Chance(20) {
+		// manually created tunnel-group -> generated group-policy -> generated ACL (two reference hops; nothing of it in the target)
+		a.ACLs["vpnf-DRC-0"] = []string{"permit ip any4 host 10.7.7.7"}
+		a.AOrder = append(a.AOrder, "vpnf-DRC-0")
+		a.Opaque = append(a.Opaque,
+			opaqueObj{"group-policy VPNGP-DRC-0 internal", nil},
+			opaqueObj{"group-policy VPNGP-DRC-0 attributes", []string{"vpn-filter value vpnf-DRC-0"}},
+			opaqueObj{"tunnel-group MANUALTG type remote-access", nil},
+			opaqueObj{"tunnel-group MANUALTG general-attributes", []string{"default-group-policy VPNGP-DRC-0"}})
+		say("manual-tunnel-group-chain")
+	}
 	if r.Chance(35) {
 		a.Groups["MANUAL"] = []string{"host 9.9.9.9", Pick(r, members)}
 		a.GOrder = append(a.GOrder, "MANUAL")
@@ -370,6 +381,17 @@ func genDevice(r *RNG, b *asaDev) (*asaDev, []string) {
 				a.AOrder = append(a.AOrder, name)
 				a.Bind["in "+in] = name
 				say("unknown-interface-with-acl")
+				if r.Chance(40) {
+					a.Shut[in] = true
+					say("unknown-interface-shutdown")
+				}
+				if r.Chance(35) {
+					on := in + "_oacl"
+					a.ACLs[on] = []string{"permit ip any4 any4"}
+					a.AOrder = append(a.AOrder, on)
+					a.Bind["out "+in] = on
+					say("unknown-interface-in-and-out")
+				}
 				break
 			}
 		}
@@ -393,6 +415,7 @@ func parseDev(text string) *asaDev {
 	d := newDev()
 	var curIntf string
 	var curGroup string
+	var curShut, curOpaque bool
 	for _, line := range strings.Split(text, "\n") {
 		if line == "" {
 			continue
@@ -403,12 +426,23 @@ func parseDev(text string) *asaDev {
 				d.Groups[curGroup] = append(d.Groups[curGroup], strings.TrimPrefix(t, "network-object "))
 			} else if curIntf != "" && strings.HasPrefix(t, "nameif ") {
 				d.Intfs = append(d.Intfs, [2]string{curIntf, strings.TrimPrefix(t, "nameif ")})
+				if curShut {
+					d.Shut[strings.TrimPrefix(t, "nameif ")] = true
+				}
+			} else if curIntf != "" && t == "shutdown" {
+				curShut = true
+			} else if curOpaque {
+				d.Opaque[len(d.Opaque)-1].Subs = append(d.Opaque[len(d.Opaque)-1].Subs, t)
 			}
 			continue
 		}
 		curIntf, curGroup = "", ""
+		curShut, curOpaque = false, false
 		w := strings.Fields(line)
 		switch {
+		case w[0] == "group-policy" || w[0] == "tunnel-group":
+			d.Opaque = append(d.Opaque, opaqueObj{Header: line})
+			curOpaque = true
 		case w[0] == "interface":
 			curIntf = w[1]
 		case strings.HasPrefix(line, "object-group network "):
@@ -453,6 +487,14 @@ func unmanagedNames(a *asaDev, managedIntf map[string]bool) (acls, groups map[st
 			groups[g] = true
 		}
 	}
+	for _, o := range a.Opaque {
+		for _, sub := range o.Subs {
+			f := strings.Fields(sub)
+			if _, ok := a.ACLs[f[len(f)-1]]; ok {
+				acls[f[len(f)-1]] = true
+			}
+		}
+	}
 	return
 }
 
@@ -473,6 +515,9 @@ func unmanagedView(d *asaDev, managedIntf map[string]bool, acls, groups map[stri
 		if !managedIntf[intf] {
 			fmt.Fprintf(&sb, "bind %s -> %s\n", k, d.Bind[k])
 		}
+	}
+	for _, o := range d.Opaque {
+		sb.WriteString("vpn " + o.Header + " {" + strings.Join(o.Subs, "; ") + "}\n")
 	}
 	names := []string{}
 	for n := range acls {
@@ -505,7 +550,7 @@ func leftovers(d *asaDev) []string {
 		}
 	}
 	for _, a := range d.AOrder {
-		if strings.Contains(a, "-DRC-") && !d.aclBound(a) {
+		if strings.Contains(a, "-DRC-") && !d.aclBound(a) && !d.opaqueRefs(a) {
 			out = append(out, "access-list "+a)
 		}
 	}
